@@ -250,12 +250,12 @@ def at_end_cases():
 
 def extra_cases(tier):
     rng = random.Random(C.seed() * 15485863 + 5)
-    return at_end_cases() + tree_cases(rng, 10 if tier == "quick" else 250, ["float", "int", "dur", "durmin"])
+    return at_end_cases() + tree_cases(rng, 10 if tier == "quick" else 150, ["float", "int", "dur", "durmin"])
 
 
 def main(tier: str) -> int:
     return c02.main(tier, pid=PID, gen=gen_case, oracle_fn=oracle, prepare=prepare, rule=RULE,
-                    n_quick=800, n_thorough=30000, extra_cases=extra_cases,
+                    n_quick=800, n_thorough=20000, extra_cases=extra_cases,
                     targets=["Sim/Case.vo", "Sim/Faults.vo", "Props/C05.vo"],
                     nontrivial=lambda f: f.get("executed", 0) >= 3 and f.get("fault_hit") is True)
 
